@@ -293,6 +293,22 @@ def c14_3(ctx):
             if not child:
                 ctx.undecided("right-child-by-child-level-width", ctx.where(r), "_recurse compares `%s`; this rule reads `2 * node + 1 < widths[level + 1]`" % a[:80])
                 continue
+            if not good and all(i.replace(" ", "") in ("len(%s)-1" % lw, "-1+len(%s)" % lw) for i in idx):
+                # the leaf level's width IS the child level's width where the child level is the leaf level: every path that uses
+                # this test must have established `level + 1 == len(widths) - 1`
+                def _is_child_leaf(a2):
+                    if ("len(%s)" % lw) not in a2 or lvl not in a2 or " == " not in a2:
+                        return False
+                    try:
+                        f_ = lambda ln, lv: bool(eval(a2.replace("len(%s)" % lw, str(ln)), {"__builtins__": {}}, {lvl: lv}))
+                        return f_(7, 5) and not f_(6, 5) and not f_(8, 5)
+                    except Exception:
+                        return False
+                eqs = [a2 for a2 in sym.all_atoms(wr) if _is_child_leaf(a2)]
+                users = [e for e in list(wr.exits) + list(wr.effects) if a in [o for o in (gi.f_opaques(getattr(e, "cond", None) if hasattr(e, "cond") else e.reach) if (getattr(e, "cond", None) if hasattr(e, "cond") else e.reach) not in (True, False, None) else [])]]
+                cond_of = lambda e: e.cond if hasattr(e, "cond") else e.reach
+                if eqs and users and all(any(sym.matters_only_when(cond_of(e), a, ("op", q)) for q in eqs) for e in users):
+                    good = True
             ctx.check(good, "right-child-by-child-level-width", ctx.where(r), "_recurse decides whether the right child exists by `%s`: the width must be that of the child level `%s[%s + 1]`; with another level's width a right-edge node's missing child is read from the proof (or an existing one is skipped)" % (a[:90], lw, lvl),
                       sample={"test": a[:90]})
     m = ctx.func(MPP, "standard_message_post_unpacks")
